@@ -60,6 +60,22 @@ SCHED_TIMEOUT = 4.0
 
 
 # ------------------------------------------------------------------ instrumentation
+_UID = threading.local()
+_UID_NEXT = [0]
+_UID_LOCK = threading.Lock()
+
+
+def my_tid():
+    """a number unique to the calling thread for the life of the process (thread idents are reused)"""
+    v = getattr(_UID, "v", None)
+    if v is None:
+        with _UID_LOCK:
+            _UID_NEXT[0] += 1
+            v = _UID_NEXT[0]
+        _UID.v = v
+    return v
+
+
 class Rec(ExtractCallback):
     """records every invocation: (kind, args, thread id, perf_counter at return)"""
 
@@ -70,7 +86,7 @@ class Rec(ExtractCallback):
     def _r(self, *a):
         if self.delay:
             _time.sleep(self.delay)
-        self.ev.append((a, threading.get_ident(), _time.perf_counter()))
+        self.ev.append((a, my_tid(), _time.perf_counter()))
 
     def report_start_preparation(self):
         self._r("pre")
@@ -104,7 +120,7 @@ class Scheduler:
         self.failed = None
 
     def before_put(self, item):
-        tid = threading.get_ident()
+        tid = my_tid()
         with self.cond:
             if tid not in self.who:
                 w = self.first.get(item[1]) if item and item[0] == "s" else None
@@ -146,14 +162,14 @@ class SchedQueue(queue.Queue):
         self.got = 0
 
     def _put(self, item):            # called with the queue mutex held: the log IS the queue order
-        self.log.append((threading.get_ident(), item))
+        self.log.append((my_tid(), item))
         super()._put(item)
 
     def put(self, item, block=True, timeout=None):
         if item is None:
             self.release.set()
         s = self.scheduler
-        if s is not None and item is not None and threading.get_ident() != self.main_tid:
+        if s is not None and item is not None and my_tid() != self.main_tid:
             s.before_put(item)
             try:
                 return super().put(item, block, timeout)
@@ -210,7 +226,7 @@ def install():
         finally:
             _TL.cur = None
             with _CALLS_LOCK:
-                _CALLS.setdefault(threading.get_ident(), []).append(rec)
+                _CALLS.setdefault(my_tid(), []).append(rec)
 
     def dd(self, fp, max_length=-1):
         r = orig_dd(self, fp, max_length)
@@ -419,7 +435,7 @@ def run_extraction(apath, case, sh, workdir):
         saved["bs"] = py7zr.compressor.get_default_blocksize
         py7zr.compressor.get_default_blocksize = lambda: case["blocksize"]
     obs = {"exc": None, "close_exc": None}
-    main_tid = threading.get_ident()
+    main_tid = my_tid()
     sched = None
     if case.get("sched") is not None:
         _, wk = walks(sh)
@@ -464,7 +480,6 @@ def run_extraction(apath, case, sh, workdir):
             except Exception:  # noqa
                 pass
         obs["t_close"], obs["t_return"] = t0, t1
-        obs["reporter_tid"] = rt.ident if rt is not None else None
         obs["main_tid"] = main_tid
         obs["puts"] = list(q.log)
         obs["cb"] = cb
@@ -523,7 +538,7 @@ def check_property(sh, obs, invs):
             bad.append("event %r for a member the extraction does not process" % (a,))
     # delivered = what actually came out
     outs = obs["outputs"]
-    deliv = [m for m in processed if not m["dir"] and any(o == m["name"] or o.endswith("/" + m["name"]) for o in outs)]
+    deliv = [m for m in processed if not m["dir"] and m["name"] in outs]
     want = sum(m["size"] for m in deliv)
     try:
         got = sum(int(a[1]) for a in invs if a[0] == "u")
@@ -637,7 +652,10 @@ def judge(ctx, case, sh, obs, strict_sched):
             len(by_tid), len(workers_ev)), "worker-count"))
     # exact queue contents under the enforced schedule (or the only possible sequence)
     if strict_sched:
-        comp, em = model.call("ev_emitted", [tree, case.get("sched") or []])
+        sc = case.get("sched")
+        if sc is None:      # at most one concurrent worker: the only complete schedule
+            sc = [0] * len(workers_ev[0]) if workers_ev else []
+        comp, em = model.call("ev_emitted", [tree, sc])
         if not comp:
             out.append(("harness schedule is not complete for the model's workers", "harness-schedule"))
         elif ev_erase(em) != [tuple(e) for e in evq]:
